@@ -33,7 +33,7 @@ GRPC_REJECTS = ["g14", "g8", "s503", "h14", "g13", "s502", "h8"]
 UNIT = 8192
 BIG_UNIT = 160 * 1024
 PADS = ["rep", "rnd"]
-LATE_STALLS = ("stallbody", "stalltrail")
+LATE_STALLS = ("stallbody", "stalltrail", "rstbody")
 
 
 def concretise(decs, proto, rnd):
@@ -45,6 +45,8 @@ def concretise(decs, proto, rnd):
             out.append(rnd.choice(["sth", "stm"]))
         elif d == "stalltrail":       # head and message sent, no grpc-status trailer
             out.append("stt")
+        elif d == "rstbody":          # head sent, then the stream is reset
+            out.append("rsb")
         else:
             out.append(d)
     return out
@@ -95,6 +97,8 @@ def build_scenario(n, lines_by_sig, proto, gzip, rnd, unit=UNIT, pad="rep", sign
         "signals": signals or subsets_with(list(lines_by_sig), rnd),
         "flush_after": flush_after,
         "limit": limit, "unit": unit, "pad": pad, "events": events,
+        # configuration forms (delivery, splitting and acknowledgement do not depend on them)
+        "resource": n % 2 == 1, "headers": (n // 2) % 2 == 1, "entry": "builder" if (n // 4) % 2 else "new",
         "scripts": scripts,
         "predict": {s: [{"ids": r["ids"], "dec": r["dec"]} for r in ln["reqs"]]
                     for s, ln in lines_by_sig.items()
@@ -157,15 +161,15 @@ def make_scenarios(ctx, lines):
     # return false; true is only right once everything emitted was acknowledged.
     for i in range(n_short):
         proto, gzip = TRANSPORTS[i % len(TRANSPORTS)]
-        down = SIGS[i % 2]                                   # logs or traces
-        later = SIGS[SIGS.index(down) + 1:]
+        down = SIGS[i % 3]
+        later = SIGS[SIGS.index(down) + 1:] or SIGS[:2]      # (metrics is flushed last: earlier ones)
         later = later if i % 3 == 0 else later[-1:] if i % 3 == 1 else later[:1]
         base = rnd.choice(clean)
         ls = {down: dict(base, decs=["stall"] * 3, reqs=[], flushAt=[len(base["sizes"])])}
         if (i // 2) % 2 == 0:                                # the later signals also carry events
             for s in later:
                 ls[s] = dict(rnd.choice(by_limit[base["limit"]]), decs=[], reqs=[])
-        out.append(build_scenario(len(out), ls, proto, gzip, rnd, signals=[down] + later,
+        out.append(build_scenario(len(out), ls, proto, gzip, rnd, signals=[s for s in SIGS if s == down or s in later],
                                   short_flush_ms=[400, 0, 50][i % 3]))
     # one signal's endpoint is down for a long time; the others must be delivered meanwhile
     for i in range(n_indep):
@@ -253,7 +257,25 @@ def run(ctx):
         scenarios = [dict(rc["scenario"], sc=0)]
     else:
         scenarios = make_scenarios(ctx, lines)
-    bindir = ctx.cargo_build("vh_otlp", bins=["c12_export"])
+    bindir = ctx.cargo_build("vh_otlp", bins=["c12_export", "c12_config"])
+
+    # Configurations the statement is silent about (malformed / scheme-less URLs, JSON over
+    # gRPC, https without TLS support): exploration - only a panic on the calling thread or a
+    # call that does not return is a violation; what the emitter does is recorded.
+    if rc is None:
+        cfg_rep = os.path.join(ctx.out, "config-forms.json")
+        ctx.run_harness(os.path.join(bindir, "c12_config"), [cfg_rep], timeout=300)
+        cr = json.load(open(cfg_rep))
+        ctx.cov["config_forms"] = cr["extra"].get("observations")
+        for o in cr["extra"].get("observations", []):
+            m = o.get("metrics", {})
+            if any(k.endswith("queue_batch_panicked") for k in m):
+                ctx.cov.setdefault("config_form_notes", []).append(
+                    "configuration form '%s' is accepted by spawn (configuration_failed = %s) but every batch "
+                    "panics on the worker; events dropped, flush = %s" % (o["form"], m.get("configuration_failed", 0), o.get("flush")))
+        for m in cr["mismatches"]:
+            ctx.violation("C12 %s: %s" % (m["what"], json.dumps(m["case"])), {"config_form": m["case"], "detail": m["detail"]},
+                          signature="C12 config-form %s" % m["case"].get("form"))
 
     def run_pass(scens, tag, threads):
         sc_path = os.path.join(ctx.out, "scenarios%s.ndjson" % tag)
